@@ -1,7 +1,8 @@
 use core::panic;
 use std::vec;
 
-use laythe_core::{object::Class, utils::IdEmitter, value::Value, ObjRef};
+use laythe_core::{managed::Trace, object::Class, utils::IdEmitter, value::Value, ObjRef};
+use std::io::Write;
 
 /// The cache for property access and setting
 #[derive(Clone, Debug)]
@@ -143,6 +144,33 @@ impl InlineCache {
   /// Number of invoke cache slots
   pub fn verif_invoke_len(&self) -> usize {
     self.invoke.len()
+  }
+}
+
+/// The caches compare classes by address so every class and method they
+/// remember has to stay alive, otherwise a new class allocated at the address
+/// of a collected one would hit the stale entry
+impl Trace for InlineCache {
+  fn trace(&self) {
+    for cache in self.property.iter().flatten() {
+      cache.class.trace();
+    }
+
+    for cache in self.invoke.iter().flatten() {
+      cache.class.trace();
+      cache.method.trace();
+    }
+  }
+
+  fn trace_debug(&self, log: &mut dyn Write) {
+    for cache in self.property.iter().flatten() {
+      cache.class.trace_debug(log);
+    }
+
+    for cache in self.invoke.iter().flatten() {
+      cache.class.trace_debug(log);
+      cache.method.trace_debug(log);
+    }
   }
 }
 
